@@ -1153,7 +1153,19 @@ fn search_differential(seed: u64, budget: usize, want: Option<&str>) -> (usize, 
         // accepts is refused), precedence/taxonomy (both refuse, different kinds), pass-through (both accept, different returned request)
         let about: Vec<&str> = match (&real, &model) {
             (Ok(_), Err(k)) => { let mut v = vec![k.1]; if k.1 == "C01" { v.extend(blame_sections(&r, &cfg)); } if k.1 == "C05" || k.1 == "C19" { v.push("C01"); } v }
-            (Err(_), Ok(_)) => { let mut v = vec!["C02"]; if folds_for_signer { v.push("C12"); } v.extend(blame_sections(&r, &cfg)); v }
+            (Err(e), Ok(_)) => {
+                // a request the model accepts is refused: completeness (C02), plus the rule the crate says it applied
+                let mut v = vec!["C02"]; if folds_for_signer { v.push("C12"); } v.extend(blame_sections(&r, &cfg));
+                if e.contains("expired") || e.contains("not yet current") { v.push("C04"); v.push("C16"); }
+                if e.contains("ISO-8601") { v.push("C16"); }
+                if e.contains("Credential") { v.push("C03"); }
+                if e.contains("SignedHeader") { v.push("C05"); }
+                if e.starts_with("InvalidURIPath") { v.push("C09"); }
+                if e.starts_with("MalformedQueryString") { v.push("C10"); }
+                if e.starts_with("InvalidBodyEncoding") { v.push("C12"); }
+                if e.starts_with("MissingAuthenticationToken") || e.starts_with("IncompleteSignature") { v.push("C19"); }
+                v
+            }
             (Err(_), Err(k)) => vec!["C13", k.1],
             (Ok(_), Ok((muri, _))) => if muri.is_some() { vec!["C15", "C12"] } else { vec!["C15"] },
         };
@@ -1217,7 +1229,8 @@ fn search_time(what: &str) -> (usize, Option<Value>) {
         Some(r)
     };
     if what == "C16" || what == "C04" {
-        for text in ["20150830T123600Z", "2015-08-30T12:36:00Z", "20150830T143600+0200", "2015-08-30T14:36:00+02:00", "20150830T103600-0200", "20150830T123600.000Z", "20150830T123600,0Z", "20150830T180600+0530"] {
+        for text in ["20150830T123600Z", "2015-08-30T12:36:00Z", "20150830T143600+0200", "2015-08-30T14:36:00+02:00", "20150830T103600-0200", "20150830T123600.000Z", "20150830T123600,0Z", "20150830T180600+0530",
+                     "20150830T120600-0030", "2015-08-30T13:06:00+00:30", "20150830T123600-0000", "20150831T003600+1200", "20150829T233600-1300"] {
             n += 1;
             let r = mk(text).unwrap();
             let res = validate(&r, base, "us-east-1", "service", SignatureOptions::default());
